@@ -161,5 +161,5 @@ def queries(tier):
                         desc="reachability twins: exact-length window, merged (extended) window, delayed start"))
         qs.append(Query(f"ind_{tag}", f, 1, kind="ind", invariants=_inv, timeout=600,
                         desc="1-step induction from an arbitrary shift-register content tied to the age counter (all strobe patterns)"))
-        qs.append(Query(f"cosim_{tag}", f, 0, kind="cosim", cosim_cycles=200 if quick else 1000))
+        qs.append(Query(f"cosim_{tag}", f, 0, kind="cosim", cosim_cycles=100 if quick else 1000))
     return qs
